@@ -38,6 +38,7 @@ type c15Req struct {
 	Panic    bool   `json:"panic,omitempty"`
 	Retry    bool   `json:"retried_after_failure,omitempty"`
 	RetryStatus int `json:"retry_status,omitempty"`
+	ForceID  uint32 `json:"same_id_as_pending_client_request,omitempty"`
 	id       uint32
 	retryID  uint32
 	retryCh  chan *wire.Msg
@@ -59,7 +60,7 @@ type c15Call struct {
 }
 
 func runC15(r *vc.Run, replay string) {
-	r.Rule = "cases = phase-two requests: streams of 60-500 BranchCommit/BranchRollback requests mixing a scripted branch type (statuses 0..10, with/without error, held, panicking) with AT/TCC/XA requests for unknown resources and an unregistered branch type, delivered concurrently on one session, with holds that invert completion order; one batch per scripted branch type (SAGA slot, AT, TCC, XA overridden); oracle = per message id: number of responses, response type, xid, branch id, status vs. what the manager returned, routing (recorded manager calls), independence from held requests; distinct_nontrivial = distinct (branch type, kind, manager outcome, response count) signatures of requests that were delivered"
+	r.Rule = "cases = phase-two requests: streams of 60-500 BranchCommit/BranchRollback requests mixing a scripted branch type (statuses 0..10, with/without error, held, panicking) with AT/TCC/XA requests for unknown resources and an unregistered branch type, delivered concurrently on one session, with holds that invert completion order; one batch per scripted branch type (SAGA slot, AT, TCC, XA overridden), each followed by 12 requests whose message ids equal the ids of client requests still waiting for their answers; oracle = per message id: number of responses, response type, xid, branch id, status vs. what the manager returned, routing (recorded manager calls), independence from held requests; distinct_nontrivial = distinct (branch type, kind, manager outcome, response count) signatures of requests that were delivered"
 	r.Assumptions = []string{"the scripted manager is registered through the public rm.GetRmCacheInstance().RegisterResourceManager API and overrides the real manager of its branch type in that child",
 		"a request whose manager fails may stay unanswered (the coordinator retries); only a success status is forbidden then"}
 	types := []int{2, 0, 1, 3}
@@ -155,6 +156,9 @@ func c15Batch(r *vc.Run, stype int) {
 			break
 		}
 	}
+	if ch.Alive() {
+		c15Collide(r, w, ch, stype, rnd, base)
+	}
 	if txt, inSeata, found := ch.PanicInfo(); found {
 		if inSeata {
 			r.Violate(&vc.Violation{Clause: "client-crash", Shape: fmt.Sprintf("stype=%s", c15TypeName[stype]), Features: map[string]string{"stype": c15TypeName[stype]}, Detail: "client process died from a panic inside seata-go: " + clipStr(txt, 1500)})
@@ -165,6 +169,79 @@ func c15Batch(r *vc.Run, stype int) {
 		}
 	}
 	r.Count("race_reports_in_child_log(owned by C20)", int64(strings.Count(ch.Log(), "WARNING: DATA RACE")))
+}
+
+// c15Collide: phase-two requests whose message ids equal the ids of client requests that are still waiting for their
+// answers. The coordinator numbers its requests independently of the client, so such coincidences are ordinary; each
+// of these requests must still be routed to its manager and answered exactly once.
+func c15Collide(r *vc.Run, w *world.World, ch *vc.Child, stype int, rnd *vc.Rand, base int64) {
+	prefix := fmt.Sprintf("c15collide-%d/", stype)
+	n := 12
+	var mu sync.Mutex
+	var held []*faketc.Req
+	w.TC.AddRule(&faketc.Rule{Name: "c15-collide", Match: func(q *faketc.Req) bool {
+		return q.Msg.Type == wire.TGlobalBegin && strings.HasPrefix(q.TxName, prefix)
+	}, Do: func(q *faketc.Req) bool {
+		mu.Lock()
+		held = append(held, q)
+		mu.Unlock()
+		return true
+	}})
+	var names []string
+	for i := 0; i < n; i++ {
+		names = append(names, fmt.Sprintf("%s%03d", prefix, i))
+	}
+	type callRes struct {
+		Name string `json:"name"`
+		Xid  string `json:"xid"`
+		Err  string `json:"err"`
+		Type string `json:"type"`
+	}
+	var callers []callRes
+	done := make(chan error, 1)
+	go func() { done <- ch.Call("rpc_burst", map[string]interface{}{"case": prefix, "names": names}, &callers) }()
+	arrived := false
+	for t0 := time.Now(); time.Since(t0) < 30*time.Second; time.Sleep(5 * time.Millisecond) {
+		mu.Lock()
+		k := len(held)
+		mu.Unlock()
+		if k >= n {
+			arrived = true
+			break
+		}
+	}
+	mu.Lock()
+	hs := append([]*faketc.Req{}, held...)
+	mu.Unlock()
+	if !arrived {
+		r.Inconc(fmt.Sprintf("c15 collide stype=%d: only %d of %d client requests reached the coordinator", stype, len(hs), n))
+	}
+	var reqs []*c15Req
+	for i, h := range hs {
+		commit := rnd.Bool()
+		st := 8
+		if commit {
+			st = 5
+		}
+		reqs = append(reqs, &c15Req{Idx: i, Commit: commit, Xid: fmt.Sprintf("10.1.%d.99:8091:%d", stype, 7000+i), Branch: base + 900000 + int64(i), Type: stype, Scripted: true,
+			Resource: "res-0", AppData: fmt.Sprintf(`{"c":%d}`, i), Status: st, ForceID: h.Frame.ID})
+	}
+	if len(reqs) > 0 {
+		c15Stream(r, w, ch, stype, 99, reqs)
+		r.Count("phase_two_requests_with_id_of_pending_client_request", int64(len(reqs)))
+	}
+	// now answer the client's own requests
+	for _, h := range hs {
+		m := wire.New(wire.TGlobalBeginResult, "xid", fmt.Sprintf("%s#%d", h.Msg.S("transactionName"), h.Frame.ID))
+		m.F["resultCode"], m.F["msg"], m.F["excCode"] = int64(wire.ResultSuccess), "", int64(0)
+		h.S.Reply(h.Frame.ID, m)
+	}
+	select {
+	case <-done:
+	case <-time.After(40 * time.Second):
+		r.Inconc(fmt.Sprintf("c15 collide stype=%d: the client's own callers did not return", stype))
+	}
+	w.TC.ClearRules()
 }
 
 func c15Stream(r *vc.Run, w *world.World, ch *vc.Child, stype, si int, reqs []*c15Req) {
@@ -199,7 +276,7 @@ func c15Stream(r *vc.Run, w *world.World, ch *vc.Child, stype, si int, reqs []*c
 				t = wire.TBranchCommit
 			}
 			m := wire.New(t, "xid", q.Xid, "branchId", q.Branch, "branchType", q.Type, "resourceId", q.Resource, "applicationData", q.AppData)
-			id, c, err := w.TC.Request(s, m, 0)
+			id, c, err := w.TC.Request(s, m, q.ForceID)
 			if err == nil {
 				q.id, q.ch = id, c
 			}
@@ -314,6 +391,9 @@ func c15Stream(r *vc.Run, w *world.World, ch *vc.Child, stype, si int, reqs []*c
 			if q.Hold {
 				outcome += "+held"
 			}
+		}
+		if q.ForceID != 0 {
+			outcome += "+id-of-pending-client-request"
 		}
 		rs := resp[q.id]
 		shape := fmt.Sprintf("stype=%s|type=%s|%s|%s|responses=%d", c15TypeName[stype], c15TypeName[q.Type], kind, outcome, len(rs))
